@@ -450,18 +450,17 @@ func (c *Container) computeAllowedMethods(req *Request) []string {
 	// Go through all RegisteredWebServices() and all its Routes to collect the options
 	methods := []string{}
 	requestPath := req.Request.URL.Path
-	for _, ws := range c.RegisteredWebServices() {
-		matches := ws.pathExpr.Matcher.FindStringSubmatch(requestPath)
+	// only the best matching WebService gets to handle a request for this path ; see RouterJSR311.detectDispatcher
+	ws, finalMatch, err := jsr311Router.detectDispatcher(requestPath, c.RegisteredWebServices())
+	if err != nil {
+		return methods
+	}
+	for _, rt := range ws.Routes() {
+		matches := rt.pathExpr.Matcher.FindStringSubmatch(finalMatch)
 		if matches != nil {
-			finalMatch := matches[len(matches)-1]
-			for _, rt := range ws.Routes() {
-				matches := rt.pathExpr.Matcher.FindStringSubmatch(finalMatch)
-				if matches != nil {
-					lastMatch := matches[len(matches)-1]
-					if lastMatch == "" || lastMatch == "/" { // do not include if value is neither empty nor ‘/’.
-						methods = append(methods, rt.Method)
-					}
-				}
+			lastMatch := matches[len(matches)-1]
+			if lastMatch == "" || lastMatch == "/" { // do not include if value is neither empty nor ‘/’.
+				methods = append(methods, rt.Method)
 			}
 		}
 	}
